@@ -26,7 +26,8 @@ Definition rsi_next (s : rsi_st) (k : candle) : rsi_st * iresult :=
   let '(p, pos) := ma_next (rs_pos s) (fmax change f0) in
   let '(n, neg0) := ma_next (rs_neg s) (fmin change f0) in
   let neg := fmul neg0 fm1 in
-  let value := if fne pos f0 || fne neg f0 then fdiv pos (fadd pos neg) else flit 1 2 in
+  let sum := fadd pos neg in
+  let value := if fne sum f0 then fdiv pos sum else flit 1 2 in
   let '(cl, al) := cross_next (rs_cross_lower s) (value, rc_zone c) in
   let '(cu, au) := cross_next (rs_cross_upper s) (value, fsub f1 (rc_zone c)) in
   let oversold := a_analog al in let overbought := a_analog au in
